@@ -167,8 +167,19 @@ fn nodrop_races(rep: &mut Report, rng: &mut StdRng) {
                 r.map(|v| (v as *const Value as usize, v.0)).ok()
             })
         }).collect();
-        let got: std::collections::BTreeSet<_> = hs.into_iter().filter_map(|h| h.join().unwrap()).collect();
+        let mut died = 0;
+        let got: std::collections::BTreeSet<_> = hs.into_iter().filter_map(|h| match h.join() {
+            Ok(r) => r,
+            Err(_) => {
+                died += 1;
+                None
+            }
+        }).collect();
         rep.checks += 1;
+        if died > 0 {
+            rep.mismatch(json!({"what":"seed without destructor: a thread racing on get_or_try_init with an initialiser that does not panic panicked","threads":died}));
+            continue;
+        }
         if oks.load(Ordering::SeqCst) != 1 || overlap.load(Ordering::SeqCst) != 0 || got.len() != 1 {
             rep.mismatch(json!({"what":"seed without destructor: the successful initialiser did not run exactly once, alone",
                 "runs":oks.load(Ordering::SeqCst),"overlapping_runs":overlap.load(Ordering::SeqCst),"distinct_results":got.len()}));
